@@ -514,6 +514,10 @@ impl PhysicalPlanner {
                 if total_bytes.is_some_and(|total| total > PRESCAN_MAX_BYTES) {
                     return None;
                 }
+                #[cfg(feature = "verif-hooks")]
+                if crate::verif::flag("NO_PRESCAN") {
+                    return None;
+                }
                 let proj = Self::union_projection(projections);
                 Some((table_name.clone(), provider.clone(), proj))
             })
@@ -1123,6 +1127,8 @@ impl PhysicalPlanner {
                                 > 400_000_000
                         })
                         .unwrap_or(false);
+                    #[cfg(feature = "verif-hooks")]
+                    let big = big || crate::verif::flag("FORCE_STREAMING_SCAN");
                     if !big {
                         return false;
                     }
